@@ -99,6 +99,23 @@ theorem tie_translated_augment_shape (s : Snapshot) (r : Snapshot × Option AugG
   simp only [Option.map_some] at ht
   exact AugGlue.augment_shape_snapshot ff _ s.goroutines r.1.goroutines r.2 (toOption_some ht.symm)
 
+/-- **sources that do not match only leave arguments unaugmented** (C19), about the code as
+translated: a frame whose file is missing, not Go, unparsable, too short, or has no enclosing
+function at that line (`AugGlue.Mismatch`, with the five ways of `C19b`) comes out of the
+translated `augment` exactly as it went in -/
+theorem tie_translated_mismatch_leaves_unaugmented (s : Snapshot) (r : Snapshot × Option AugGlue.ErrKind)
+    (h : TrG.augment (TrG.modelEnv rf (fun _ => pf') (fun s => some (AugGlue.lineToByteOffsets s))
+        (acOf eat ff decl)) s = some r)
+    (i j : Nat) (g g' : Goroutine) (x x' : Call)
+    (hg : s.goroutines[i]? = some g) (hg' : r.1.goroutines[i]? = some g')
+    (hx : g.sig.stack.calls[j]? = some x) (hx' : g'.sig.stack.calls[j]? = some x')
+    (hm : AugGlue.Mismatch (TrG.oracleOf rf pf' (typesOf eat decl)) x) : x' = x := by
+  have ht := tie_augment_full eat ff decl rf pf' s
+  rw [h] at ht
+  simp only [Option.map_some] at ht
+  exact AugGlue.mismatch_leaves_unaugmented_snapshot ff _ s.goroutines r.1.goroutines r.2
+    (toOption_some ht.symm) i j g g' x x' hg hg' hx hx' hm
+
 /-- **mismatching or hostile sources never crash it** (C03/C19), about the code as translated:
 when `extractArgumentsType` never yields an empty type list with the ellipsis flag (it cannot:
 `Spec.flag_needs_type`), the translated `(*Snapshot).augment` over the translated `augmentCall`
@@ -166,3 +183,4 @@ end PP.GlueAug
 #print axioms PP.GlueAug.tie_translated_augment_no_panic
 #print axioms PP.GlueAug.tie_translated_augment_no_panic_model
 #print axioms PP.GlueAug.tie_translated_augment_shape
+#print axioms PP.GlueAug.tie_translated_mismatch_leaves_unaugmented
